@@ -134,20 +134,27 @@ def check(ctx: Ctx) -> None:
     ok = 'name:captures' in a
     ctx.check(ok, 'C05.R3', f, 'field:field', 'field = the captured columns', f'field has provenance {_brief(a)}', vals.get('field'))
     # captures[name] <- row[idx] for (name, idx) of the spec's maps, stripped
-    cap_stores = [s for s in ast.walk(loop) if isinstance(s, ast.Assign) and any(isinstance(t, ast.Subscript) and isinstance(t.value, ast.Name) and t.value.id == 'captures' for t in s.targets)]
-    if len(cap_stores) < 2:
+    # two spellings: a loop storing captures[name] = …, or captures = {name: … for name, idx in …}
+    producers = []          # (statement, key expr, value expr, loop target, iterable)
+    for s in ast.walk(loop):
+        if isinstance(s, ast.Assign) and any(isinstance(t, ast.Subscript) and isinstance(t.value, ast.Name) and t.value.id == 'captures' for t in s.targets):
+            lp = [x for x in ancestors(s) if isinstance(x, ast.For) and x is not loop]
+            producers.append((s, s.targets[0].slice, s.value, lp[0].target if lp else None, lp[0].iter if lp else None))
+        elif isinstance(s, ast.Assign) and len(s.targets) == 1 and isinstance(s.targets[0], ast.Name) and s.targets[0].id == 'captures' and isinstance(s.value, ast.DictComp) \
+                and len(s.value.generators) == 1 and not s.value.generators[0].ifs:
+            g = s.value.generators[0]
+            producers.append((s, s.value.key, s.value.value, g.target, g.iter))
+    if len(producers) < 2:
         ctx.unknown('C05.R3', f, 'capture stores not found')
-    for s in cap_stores:
-        lp = [x for x in ancestors(s) if isinstance(x, ast.For) and x is not loop]
+    for s, key, value, tgt, it_ in producers:
         ok = False
-        if lp and isinstance(lp[0].target, ast.Tuple) and len(lp[0].target.elts) == 2:
-            nm, idx = [e.id for e in lp[0].target.elts]
-            key = s.targets[0].slice
-            it = src(lp[0].iter)
-            reads = [n for n in ast.walk(s.value) if isinstance(n, ast.Subscript) and isinstance(n.value, ast.Name) and n.value.id == row]
+        if tgt is not None and isinstance(tgt, ast.Tuple) and len(tgt.elts) == 2 and all(isinstance(e, ast.Name) for e in tgt.elts):
+            nm, idx = [e.id for e in tgt.elts]
+            it = src(it_)
+            reads = [n for n in ast.walk(value) if isinstance(n, ast.Subscript) and isinstance(n.value, ast.Name) and n.value.id == row]
             ok = isinstance(key, ast.Name) and key.id == nm and reads and all(isinstance(r.slice, ast.Name) and r.slice.id == idx for r in reads) \
-                and it in ('format_spec.extra_fields.items()', 'format_spec.custom_captures.items()') and '.strip()' in src(s.value)
-        ctx.check(ok, 'C05.R3', f, f'capture:{src(lp[0].iter)[:40] if lp else "?"}', 'captures[name] = row[idx].strip() for (name, idx) of the spec',
+                and it in ('format_spec.extra_fields.items()', 'format_spec.custom_captures.items()') and '.strip()' in src(value)
+        ctx.check(ok, 'C05.R3', f, f'capture:{src(it_)[:40] if it_ is not None else "?"}', 'captures[name] = row[idx].strip() for (name, idx) of the spec',
                   f'{src(s)[:70]!r}: capture does not read the configured column of this row', s)
     # no arithmetic on column indices
     for n in ast.walk(loop):
@@ -303,8 +310,18 @@ def r7_amount(ctx: Ctx) -> None:
     ctx.check(us <= seen_u, 'C05.R7', pa, 'convention:dot', "decimal point: ',' removed", f'decimal-point arm performs {sorted(seen_u)}')
     # parentheses -> negative, applied to the result once
     neg = [s_ for s_ in cfg.stmts() if isinstance(s_, ast.If) and 'startswith' in src(s_.test) and 'endswith' in src(s_.test) and "'('" in src(s_.test) and "')'" in src(s_.test)]
-    rets = [r for r in cfg.stmts() if isinstance(r, ast.Return)]
-    ok = bool(neg) and len(rets) == 1 and isinstance(rets[0].value, ast.IfExp) and src(rets[0].value.body).startswith('-') and src(rets[0].value.test) == 'negative'
+    rets = [r for r in cfg.stmts() if isinstance(r, ast.Return) and r.value is not None]
+    # every returned value is -x when the cell was parenthesised and x otherwise, whether spelled `-r if negative else r` or `if negative: return -r` / `return r`
+    arms = []            # (is negated, truth of `negative` under which it is returned; None = unconditional)
+    for r in rets:
+        if isinstance(r.value, ast.IfExp) and src(r.value.test) in ('negative', 'not negative'):
+            flip = src(r.value.test) != 'negative'
+            arms.append((isinstance(r.value.body, ast.UnaryOp) and isinstance(r.value.body.op, ast.USub), not flip))
+            arms.append((isinstance(r.value.orelse, ast.UnaryOp) and isinstance(r.value.orelse.op, ast.USub), flip))
+        else:
+            g = dict(cfg.guard_literals(r))
+            arms.append((isinstance(r.value, ast.UnaryOp) and isinstance(r.value.op, ast.USub), g.get('negative')))
+    ok = bool(neg) and any(n_ and t is True for n_, t in arms) and any((not n_) and t is False for n_, t in arms) and all((n_ and t is True) or ((not n_) and t is False) for n_, t in arms)
     ctx.check(ok, 'C05.R7', pa, 'parentheses', '(x) is read as -x', 'parenthesised amounts are not negated exactly once')
     fl_calls = [c for c in fl.calls('float')]
     ctx.check(len(fl_calls) == 1 and not cfg.guard_literals(fl.stmt_of(fl_calls[0])), 'C05.R7', pa, 'float', 'the normalised text is converted with float() on every path',
@@ -313,31 +330,13 @@ def r7_amount(ctx: Ctx) -> None:
 
 def r8_row_independence(ctx: Ctx, f, fl, loop, row) -> None:
     """Loop-carried dependence: a name assigned in the row loop whose definition from a *previous* iteration can reach a read."""
-    cfg = fl.cfg
-    rd = cfg.reaching()
-    carried = {}
-    inside = {cfg.nid(s) for s in cfg.stmts() if any(a is loop for a in ancestors(s))}
-    loop_id = cfg.nid(loop)
-    from ..cfg import walk_header, defined_names
-    for nid in sorted(inside):
-        st = cfg.stmt[nid]
-        uses = {n.id for n in walk_header(st) if isinstance(n, ast.Name) and isinstance(n.ctx, ast.Load)}
-        for name in uses:
-            defs = rd.get(nid, {}).get(name, set())
-            in_defs = {d for d in defs if d in inside}
-            if not in_defs:
-                continue
-            # a definition inside the loop reaches this read; is it from the current iteration on every path?
-            # it is loop-carried iff the read is reachable from the loop head without passing any of those definitions
-            if cfg.reachable_without(loop_id, nid, set(in_defs)):
-                # reads that can only see a pre-loop value on the first iteration and an in-loop value later
-                carried.setdefault(name, (st, sorted(cfg.stmt[d].lineno for d in in_defs)))
-    # the result list itself (append-only) and plain counters are not "values of an earlier row"
+    from ._rows import carried_containers, carried_names
     appended = {n.func.value.id for n in ast.walk(loop) if isinstance(n, ast.Call) and isinstance(n.func, ast.Attribute) and n.func.attr in ('append', 'extend')
                 and isinstance(n.func.value, ast.Name)}
-    for name in list(carried):
-        if name in appended or name == row:
-            del carried[name]
+    carried = {k: v for k, v in carried_names(fl, loop).items() if k not in appended and k != row}
+    for name, (m, rd_) in carried_containers(fl, loop, appended).items():
+        if name != row:
+            carried.setdefault(name, (fl.stmt_of(rd_) if fl.cfg.has(fl.stmt_of(rd_)) else loop, [getattr(m, 'lineno', 0)]))
     if carried:
         for name, (st, lines) in sorted(carried.items()):
             ctx.fail('C05.R8', f, f'carried:{name}', f'`{name}` is assigned while processing one row (line(s) {lines}) and read at line {st.lineno} while processing a later row: '
